@@ -103,6 +103,18 @@ fn commit_live(w: &mut World, key: &[u8], val: &[u8]) -> Result<Result<(), Strin
 						drop(fut);
 						return Ok(r.map_err(|e| format!("{e}")));
 					}
+					// diagnosis: would further compaction rounds (that nobody has scheduled) free it?
+					for extra in 1..=8 {
+						let _ = w.physical(crate::world::Phys::Compact);
+						let p = {
+							let _g = w.rt.as_ref().unwrap().enter();
+							fut.as_mut().poll(&mut cx)
+						};
+						if let Poll::Ready(_) = p {
+							drop(fut);
+							return Ok(Err(format!("HANG-UNTIL-EXTRA-ROUNDS:{extra}")));
+						}
+					}
 					drop(fut);
 					return Ok(Err("HANG".into()));
 				}
@@ -142,6 +154,10 @@ pub fn run_list_on(ops: &[Sop], levels: u8) -> Result<Option<(String, String)>, 
 					let val = if *op == Sop::Big { vec![b'v'; 3000] } else { format!("v{n}").into_bytes() };
 					match commit_live(&mut w, format!("k{n:03}").as_bytes(), &val)? {
 						Ok(()) => {}
+						Err(e) if e.starts_with("HANG-UNTIL-EXTRA-ROUNDS") => {
+							let (imm, l0) = w.tree().verif_stall_counts();
+							return Ok(Some(("commit-waits-for-a-compaction-round-nobody-schedules".into(), ctx(format!("commit() stays pending after the background tasks ran to quiescence; it returns once {} more compaction round(s) are run by hand (now {imm} immutable memtables, {l0} level-0 tables): the level task runs one round per wake-up and that round compacted another level", e.rsplit(':').next().unwrap_or("?"))))));
+						}
 						Err(e) if e == "HANG" => {
 							let (imm, l0) = w.tree().verif_stall_counts();
 							if std::env::var("VERIF_DEBUG").is_ok() {
